@@ -275,9 +275,8 @@ def run(ctx):
                         tmpl_why = "ConnectionPool::validate takes the pool's template from Server.%s (%s), which %s update(s) with what clients set on the connection" % (f_, g.split("::")[-1], (writers + mut_calls)[:2])
     r4.check(tmpl_ok, "template-from-startup-record", "the pool's parameter template is what a server reported when its connection was opened (a field nothing updates afterwards)",
              tmpl_why + ": validate() on a connection that has served a client makes that client's TimeZone / DateStyle / application_name the defaults every later client is told and runs under")
-    vfalse = sorted({c.body.name for c in F.all_calls("re:^core::sync::atomic::AtomicBool::store$") if len(c.args) > 1 and const_int(c.args[1]) == 0
-                     and any(".validated" in o.proj for o in origins(c.body, c.args[0], taint=True) if o.kind in ("place", "param"))})
-    r4.check(not vfalse, "validated-never-reset", "nothing stores false into ConnectionPool.validated", "ConnectionPool.validated is set back to false in %s: the next login re-runs validate() on whatever connection the pool hands out - one a client has used" % vfalse)
+    # (a clause `nothing stores false into ConnectionPool.validated` was removed: with the template taken from the startup record a repeated validate() tells nothing
+    # about earlier clients - the clause would report an edit that changes no behaviour)
     # ---------------- R5
     r5 = ctx.rule("C12-R5", "the tracked set, the defaults and the property's five parameters agree", floor=2)
     tp = [b for n, b in F.bodies.items() if n.startswith("pgcat::server::TRACKED_PARAMETERS")]
